@@ -473,6 +473,17 @@ func (fc *FnCtx) arith(st *State, op token.Token, a, b T, rt types.Type, bits in
 				return imod(b, mkBig(pow2(k)))
 			}
 		}
+		// x & c for a small non-negative constant: keep the bits of x that c has
+		if bc, ok := constOf(b); ok && bc.Sign() > 0 && bc.BitLen() <= 16 {
+			r := mkInt(0)
+			for k := 0; k < bc.BitLen(); k++ {
+				if bc.Bit(k) == 1 {
+					p := mkBig(pow2(uint(k)))
+					r = add(r, mul(imod(idiv(a, p), mkInt(2)), p))
+				}
+			}
+			return fc.define(r, "and")
+		}
 		return asInt(fc.lenientFresh(e, "bitwise and with non-mask"))
 	case token.OR:
 		// x | 2^k  (single bit set)
@@ -483,6 +494,17 @@ func (fc *FnCtx) arith(st *State, op token.Token, a, b T, rt types.Type, bits in
 			}
 			if bc.Sign() == 0 {
 				return a
+			}
+			// x | c for a small non-negative constant: add every bit of c that x lacks
+			if bc.Sign() > 0 && bc.BitLen() <= 16 {
+				r := a
+				for k := 0; k < bc.BitLen(); k++ {
+					if bc.Bit(k) == 1 {
+						p := mkBig(pow2(uint(k)))
+						r = add(r, ite(eq(imod(idiv(a, p), mkInt(2)), mkInt(1)), mkInt(0), p))
+					}
+				}
+				return fc.define(r, "or")
 			}
 		}
 		// L | R with L a multiple of 2^k and 0 <= R < 2^k  ==> L + R
